@@ -25,8 +25,20 @@ class A:
     def cm(cls, x):
         return ("A.cm", cls.__name__, x)
 
+    @staticmethod
+    def sm(x):
+        return ("A.sm", x)
+
     def __eq__(self, o):
         return type(o) is A and o.tag == self.tag
+
+
+class ASub(A):
+    def meth(self, x):
+        return ("ASub.meth", self.tag, x)
+
+    def __eq__(self, o):
+        return type(o) is ASub and o.tag == self.tag
 
 
 class B:
@@ -56,6 +68,14 @@ def r3(b):
 
 REDUCERS = {"none": None, "A:r1": {A: r1}, "A:r2+B:r3": {A: r2, B: r3}}
 PICKLERS = [None, "", "cloudpickle", "pickle"]
+
+
+def _user_marker(name):
+    return ("user-reduced", name)
+
+
+def _user_reduce(obj):
+    return _user_marker, (type(obj).__name__,)
 
 
 def f3(a, b=0, c=0):
@@ -97,6 +117,16 @@ def callables():
         except TypeError:
             continue
         out.append((f"partial-{na}args-{len(kw)}kw", p, probe))
+    sub = ASub("sub")
+    out += [("static-method", A.sm, [(1,)]), ("static-method-via-instance", a.sm, [(2,)]),
+            ("class-method-via-instance", a.cm, [(1,)]), ("class-method-of-subclass", ASub.cm, [(1,)]),
+            ("bound-method-overridden-in-subclass", sub.meth, [(1,)]),
+            ("inherited-method-via-super-class-lookup", functools.partial(A.meth, sub), [(3,)]),
+            ("bound-builtin-method", [1, 2].count, [(1,)]),
+            ("descr-dict.get", dict.get, [({"k": 1}, "k")]),
+            ("partial-of-partial-of-bound-method",
+             functools.partial(functools.partial(sub.meth), 4), [()]),
+            ("partial-of-static-method", functools.partial(A.sm, 5), [()])]
     out.append(("nested-partial", functools.partial(functools.partial(f3, 1), b=2), [()]))
     out.append(("partial-of-bound-method", functools.partial(a.meth, 7), [()]))
     out.append(("partial-of-descriptor", functools.partial(int.__add__, 3), [(4,)]))
@@ -188,6 +218,38 @@ def main(tier):
                      f"under {pk}", (pk, name))
             if len(samples) < 4:
                 samples.append(dict(pickler=pk, object=name))
+    red.set_loky_pickler(None)
+
+    # ---- (2b) a reducer given for a type loky has its own reducer for wins over the built-in,
+    # for that pickler only
+    import types as _types
+    a_ = A("inst")
+    builtin_kinds = [("partial", functools.partial, functools.partial(f3, 1, b=2)),
+                     ("bound-method", _types.MethodType, a_.meth),
+                     ("class-method", _types.MethodType, A.cm),
+                     ("method-descriptor", type(list.append), list.append),
+                     ("wrapper-descriptor", type(int.__add__), int.__add__)]
+    for pk in ("cloudpickle", "pickle"):
+        red.set_loky_pickler(pk)
+        for kname, typ, obj in builtin_kinds:
+            n += 1
+            try:
+                back = pickle.loads(bytes(red.dumps(obj, reducers={typ: _user_reduce})))
+            except BaseException as ex:      # noqa
+                viol(f"user-reducer-on-builtin-kind-fails:{kname}", f"{pk}: {ex!r}", (pk, kname))
+                continue
+            if back != ("user-reduced", typ.__name__):
+                viol(f"user-reducer-ignored:{kname}",
+                     f"dumps({kname}, reducers={{{typ.__name__}: user}}) under {pk} did not use the "
+                     f"given reducer (got {back!r})", (pk, kname))
+            # and the next pickler without reducers still uses the built-in one
+            try:
+                again = pickle.loads(bytes(red.dumps(obj)))
+                if again == ("user-reduced", typ.__name__):
+                    viol(f"user-reducer-leaked:{kname}", f"{pk}: a later dumps() without reducers "
+                         f"still used the user's reducer", (pk, kname))
+            except BaseException as ex:      # noqa
+                viol(f"round-trip-fails-after-user-reducer:{kname}", f"{pk}: {ex!r}", (pk, kname))
     red.set_loky_pickler(None)
 
     # ---- (3) executor wiring ------------------------------------------------------------------
